@@ -49,6 +49,9 @@ def run_peak(c):
         res["wavenumber"] = flat(r.values)
         res["wavenumber_shape"] = out_shape(r.values)
     res["depth"] = flat(s.depth.values)
+    # per-frequency direction and spread, (points, frequency) in C order
+    res["dir_pf"] = flat(s.mean_direction_per_frequency.values)
+    res["spr_pf"] = flat(s.mean_spread_per_frequency.values)
     return res
 
 
